@@ -58,6 +58,8 @@ func runC15(c *core.Ctx) {
 	h.snapshotOpenPinned("C15.11 open-pinned")
 	c.Clause("C15.12 a request handler clears or compacts the log only after the replications of an ended leadership were stopped and waited for")
 	h.logChangedOnlyWithoutReaders("C15.12 log-readers")
+	c.Clause("C15.13 what bounds log compaction counts every goroutine that can still read the log, also the replication of a node that has just been dropped")
+	h.logReadersComplete("C15.13 reader-set")
 }
 
 type guardSpec struct{ field, mu, reason string }
